@@ -63,6 +63,33 @@ Definition sort_removed (rs : list removed) : list removed :=
   let ids := sort_ids (map c_id (removed_constrs rs)) in
   flat_map (fun i => match filter (fun r => removed_has_id i r) rs with r :: _ => [r] | [] => [] end) ids.
 
+(* typed sense / objective / hints as returned by the harness (public Parse impls of the same components) *)
+Definition typed_obj_ok (o : option function) (t : tree) : bool :=
+  match d_function t, o with
+  | Some f', Some g => fn_eqb f' g && String.eqb (kind_tag_of f') (kind_tag_of g)
+  | _, _ => false
+  end.
+Definition typed_hints_ok (h : option hints) (t : tree) : bool :=
+  let oh := match h with Some x => h_onehot x | None => [] end in
+  let so := match h with Some x => h_sos1 x | None => [] end in
+  match t with
+  | L [L ohs; L sos] =>
+      list_eqb (fun (o : N * list N) t' =>
+                  match t' with
+                  | L [i; vs] => match d_N i, d_list d_N vs with
+                                 | Some i', Some vs' => (i' =? fst o)%N && ids_eqb vs' (sort_ids (snd o))
+                                 | _, _ => false end
+                  | _ => false end) oh ohs &&
+      list_eqb (fun (s : N * list N * list N) t' =>
+                  match t' with
+                  | L [b; ms; vs] => match d_N b, d_list d_N ms, d_list d_N vs with
+                                     | Some b', Some ms', Some vs' =>
+                                         (b' =? fst (fst s))%N && ids_eqb ms' (sort_ids (snd (fst s))) && ids_eqb vs' (sort_ids (snd s))
+                                     | _, _, _ => false end
+                  | _ => false end) so sos
+  | _ => false
+  end.
+
 Definition run_C08 (case : tree) : tree :=
   match case with
   | L [A "validate"; i; r] =>
@@ -96,13 +123,19 @@ Definition run_C08 (case : tree) : tree :=
                   end
               | None =>
                   match res, comps with
-                  | A "ok", L [L dvs; L cs; L rs] =>
+                  | A "ok", L [L dvs; L cs; L rs; se; ob; hs] =>
                       if negb (list_eqb typed_dv_ok (sort_dvs (i_dvs I')) dvs)
                       then disagree "typed decision variables carry the same content (absent bound = unbounded, [0,1] for binaries)" (L [])
                       else if negb (list_eqb typed_constr_ok (sort_constrs (i_cs I')) cs)
                       then disagree "typed constraints carry the same content" (L [])
                       else if negb (list_eqb typed_removed_ok (sort_removed (i_rs I')) rs)
                       then disagree "typed removed constraints carry the same content" (L [])
+                      else if negb (match d_Z se with Some s => (s =? i_sense I')%Z | None => false end)
+                      then disagree "typed sense carries the same content" (L [])
+                      else if negb (typed_obj_ok (i_obj I') ob)
+                      then disagree "typed objective carries the same content" (L [])
+                      else if negb (typed_hints_ok h hs)
+                      then disagree "typed hints carry the same content (constraint id and variable set of every one-hot / SOS1 hint, in order)" (L [])
                       else agree ["typed"; "ok"]
                   | _, _ => disagree "the typed view must never reject a well-formed message" (A "ok")
                   end
